@@ -227,7 +227,7 @@ def reference(case, positions=None):
     return bonds, undecided, rej, sep
 
 
-def run_real(case, positions=None, order=None, nan_key=None):
+def run_real(case, positions=None, order=None, nan_key=None, nan_mask=(True, True, True)):
     import functools
     from vermouth import selectors
     from vermouth.forcefield import ForceField
@@ -245,7 +245,8 @@ def run_real(case, positions=None, order=None, nan_key=None):
         p = positions[k] if positions else a['position']
         d['position'] = np.array(p, dtype=float)
         if k == nan_key:
-            d['position'] = np.array([np.nan] * 3)
+            # all or only some of the components are undefined
+            d['position'] = np.array([np.nan if m else x for m, x in zip(nan_mask, d['position'])])
         mol.add_node(k, **d)
     mol.add_edges_from(case['edges'])
     if case['preexisting'] and case['edges']:
@@ -380,12 +381,15 @@ def check(case, rnd, b):
     if sel:
         cap.clear()
         nk = rnd.choice(sel)
+        mask = rnd.choice([(True, True, True), (True, True, True), (True, False, False), (False, True, False), (False, False, True),
+                           (True, False, True)])
         try:
-            got4, _, _, _ = run_real(case, nan_key=nk)
+            got4, _, _, _ = run_real(case, nan_key=nk, nan_mask=mask)
         except Exception as e:
             return ('nan/exception', {'error': repr(e), 'nan_atom': nk}), bonds, rej
         b.hits += 1
         b.feat('nan_run')
+        b.feat('nan_run_partially_undefined_position', int(not all(mask)))
         if got4:
             return ('nan/bonds-created', {'n': len(got4)}), bonds, rej
         if not [r for r in cap.recs if r[0] >= 30]:
